@@ -55,3 +55,11 @@ def _lp_init(tier, lps, nodes, threads):
         h["desc"] = "lp_init: the generator context is obtained from rs_malloc (the LP's own rollbackable allocator) after the allocator is initialised, and seeded with the global LP id - so a checkpoint restore rewinds the random stream (with C09: RandomU64 is a function of that state only)"
     return hs
 HARNESSES = HARNESSES + _lp_init("quick", 8, 3, 3) + _lp_init("thorough", 16, 4, 4)
+
+# ---- multi-arena checkpoint take / restore (multi.c with the real ckpt.c and buddy.c, reduced geometry)
+_sp12 = _ilu.spec_from_file_location("spec_C12_for_C05", _os.path.join(_os.path.dirname(__file__), "C12.py"))
+_m12 = _ilu.module_from_spec(_sp12); _m12.H = H; _sp12.loader.exec_module(_m12)
+HARNESSES = HARNESSES + [
+    _m12.multi("multi_take_restore", "h_ckpt_take_restore", "model_allocator_checkpoint_take under INV_MM never exceeds the full_ckpt_size buffer and logs (ref_i, ckpt); after arbitrary clobbering of one arena and optional growth to a further arena, model_allocator_checkpoint_restore restores tree and live bytes exactly, re-initialises arenas created after the checkpoint and re-establishes INV_MM (the 'forgotten size of a new arena corrupts the NEXT checkpoint' case)",
+                (4, 1), ("quick", "thorough"), to=2400, pid="C05"),
+]
